@@ -43,6 +43,7 @@ type ChainCfg struct {
 	RuleStyle        int  // 0 strict (MATCH + DISALLOW *), 1 lenient (ALLOW *), 2 random
 	OddStepNames     bool // C15: step names with pattern metacharacters etc. (crash search)
 	CertSteps        bool
+	SameNamePct      int    // chance (percent) that the delegating step of a nested level carries the NAME and the FUNCTIONARY of the step that delegated to this level
 	SubFlattenPct    int    // chance (percent) that a sublayout's links are put into the parent's directory (no sublayout directory)
 	CertOnlyPct      int    // chance (percent) that a certificate step has no public keys, one constraint, threshold 2-3 and that many holders
 	CertChainBias    string // chain kind used for 60% of the certificate steps ("" = uniform)
@@ -79,6 +80,9 @@ type chainGen struct {
 	oneSub  bool
 	subMade bool
 	sysTrust bool // a certificate chain that ends in the machine's trust store was used
+	// the step (and its functionary) that delegated to the level being built
+	parentStep string
+	parentFunc *TestKey
 }
 
 var funcKeys = []int{4, 5, 6, 7, 2, 3, 0, 1} // functionary keys by preference (Ed25519 first: cheap)
@@ -178,6 +182,14 @@ func (g *chainGen) buildLevel(depth int, initial Files, signers []*TestKey, name
 				strings.Repeat("n", 300), "[^a]", "????????", "*.link", "a.????????", "\\*", "[]", "[a-z]*[0-9]", "a\x00b"}) + strings.Repeat("_", i)
 			lv.Feat = append(lv.Feat, "odd-step-name")
 		}
+		sameAsParent := !top && i == 0 && depth > 0 && g.parentStep != "" && cfg.SameNamePct > 0 && rng.Chance(cfg.SameNamePct)
+		if sameAsParent {
+			// "build" by carol delegates to a sublayout whose step "build", again by carol, delegates
+			// further: the directory <step>.<keyid8> then occurs twice on the path - a nesting like any
+			// other (seeded change c08-round7: a "nested in itself" guard refused it)
+			name = g.parentStep
+			lv.Feat = append(lv.Feat, "same-name-nested")
+		}
 		// functionaries of this step
 		nf := 1 + rng.Intn(3)
 		perm := append([]int{}, funcKeys...)
@@ -190,6 +202,14 @@ func (g *chainGen) buildLevel(depth int, initial Files, signers []*TestKey, name
 		var fs []*TestKey
 		for k := 0; k < nf; k++ {
 			fs = append(fs, pool()[perm[k]])
+		}
+		if sameAsParent && g.parentFunc != nil {
+			for k := range fs {
+				if fs[k] == g.parentFunc {
+					fs[k] = fs[0]
+				}
+			}
+			fs[0] = g.parentFunc
 		}
 		threshold := cfg.Thresholds[rng.Intn(len(cfg.Thresholds))]
 		if threshold > nf && rng.Chance(85) {
@@ -218,6 +238,12 @@ func (g *chainGen) buildLevel(depth int, initial Files, signers []*TestKey, name
 		// certificate route
 		var certLeafKey *TestKey
 		var certChain string
+		// DNS names the step's constraint demands (nil: wildcard) and those the holder's certificate
+		// carries: a constraint that lists several values wants exactly those values - a certificate
+		// that repeats one of them instead of carrying the other does not meet it
+		// (seeded change c02-constraint-values-counted-not-ticked)
+		var wantDNS []any
+		leafDNS := []string{"a.example.org"}
 		certOnly := 0
 		if cfg.CertSteps && top && rng.Chance(60) {
 			certLeafKey = pool()[3]
@@ -251,6 +277,20 @@ func (g *chainGen) buildLevel(depth int, initial Files, signers []*TestKey, name
 			}
 			constraint := O("common_name", rng.Pick([]string{"*", "builder", "builder", "other"}), "dns_names", []any{"*"}, "emails", []any{"*"},
 				"organizations", []any{rng.Pick([]string{"*", "org-one"})}, "roots", []any{"*"}, "uris", []any{"*"})
+			if rng.Chance(35) {
+				wantDNS = []any{"a.example.org", "b.example.org"}
+				switch rng.Intn(10) {
+				case 0, 1, 2:
+					leafDNS = []string{"a.example.org", "a.example.org"}
+					lv.Feat = append(lv.Feat, "dns-repeated")
+				case 3:
+					lv.Feat = append(lv.Feat, "dns-subset")
+				default:
+					leafDNS = []string{"b.example.org", "a.example.org"}
+					lv.Feat = append(lv.Feat, "dns-both")
+				}
+				constraint = constraint.Set("dns_names", wantDNS)
+			}
 			st = st.Set("cert_constraints", []any{constraint})
 			if wantCertOnly {
 				// ONE constraint, NO public keys, threshold 2 (or 3): one constraint admits any number of
@@ -366,7 +406,10 @@ func (g *chainGen) buildLevel(depth int, initial Files, signers []*TestKey, name
 				// the evidence of this functionary is a sublayout
 				sublayoutDone = true
 				g.seq++
+				ps, pf := g.parentStep, g.parentFunc
+				g.parentStep, g.parentFunc = name, f
 				sub := g.buildLevel(depth-1, mats, []*TestKey{f}, fmt.Sprintf("s%d", g.seq), false)
+				g.parentStep, g.parentFunc = ps, pf
 				put(shortID(f.ID), sub.LayoutFile)
 				if cfg.SubFlattenPct > 0 && rng.Chance(cfg.SubFlattenPct) {
 					// the sublayout's directory does NOT exist; its links lie in the PARENT's directory:
@@ -528,7 +571,7 @@ func (g *chainGen) buildLevel(depth int, initial Files, signers []*TestKey, name
 					continue
 				}
 				cs := setupChain(certChain)
-				spec := LeafSpec{CN: "builder", Orgs: []string{"org-one"}, DNS: []string{"a.example.org"}, Valid: cs.LeafValidity}
+				spec := LeafSpec{CN: "builder", Orgs: []string{"org-one"}, DNS: leafDNS, Valid: cs.LeafValidity}
 				cert, pemS, err := mintLeaf(spec, certLeafKey.Signer.Public(), cs.Issuer)
 				if err != nil {
 					continue
@@ -654,6 +697,26 @@ func (g *chainGen) buildLevel(depth int, initial Files, signers []*TestKey, name
 				}
 			}
 			prodRules := g.rules("", rng.Intn(3), false, cur)
+			if prevName != "" && rng.Chance(35) {
+				// the files AFTER the command are held against the last step's products as well, and the
+				// list opens with a rule that consumes nothing (a DISALLOW that matches nothing, a REQUIRE of
+				// a file that is there): what the material rules consumed must not be missing from the
+				// product queue (seeded change c09-consumed-set-leaks-materials-to-products)
+				m := []any{"MATCH", "*", "WITH", "PRODUCTS", "FROM", prevName}
+				if cfg.Entry == "withdir" && cfg.RunDirState == "ok" {
+					m = []any{"MATCH", "*", "IN", cfg.RunDir, "WITH", "PRODUCTS", "FROM", prevName}
+				}
+				opener := []any{"DISALLOW", "*.orig"}
+				if names := keysOf(cur); len(names) > 0 && rng.Bool() {
+					req := names[rng.Intn(len(names))]
+					if cfg.Entry == "withdir" && cfg.RunDirState == "ok" {
+						req = cfg.RunDir + "/" + req
+					}
+					opener = []any{"REQUIRE", req}
+				}
+				prodRules = []any{opener, m, []any{"ALLOW", "*.link"}, []any{"ALLOW", "new-*"}, []any{"DISALLOW", "*"}}
+				lv.Feat = append(lv.Feat, "insp-products-matched")
+			}
 			if !top {
 				matRules, prodRules = []any{[]any{"ALLOW", "*"}}, []any{[]any{"ALLOW", "*"}}
 			}
